@@ -75,6 +75,32 @@ CHECKS.update({
             "DESIGN.md §4 C13"),
 })
 
+CHECKS.update({
+    "C03": ("exploration", "E3",
+            "bounded-exhaustive enumeration of (key target, permission mask, expiry, requested channel, operation) tuples through the real Authorize on real brokers per license version, compared in both directions with a string-level reference",
+            "169 targets x 681 requests x 6 operations with mask 0xFE on all three licenses plus all 256 masks x 3 expiries on representative pairs (quick), the full product with all masks (thorough); foreign-contract/signature/master keys crafted with the real cipher, undecryptable strings and banned keys; every disagreement is shrunk to a minimal shape-based signature.",
+            "grammar: 3 literals, '+', '#', depth <= 3 targets / <= 4 requests; single-contract provider.",
+            "DESIGN.md §4 C03"),
+    "C12": ("exploration", "E3",
+            "bounded-exhaustive enumeration of key mutants (every single-character substitution, every XOR mask on every decoded byte, every pair of bit flips, every 8-byte block swap within and between keys) with grants measured through the real Authorize",
+            "For 40 issued keys per license version (5 masks x 4 targets x 2 expiries) every mutant of the listed edit families is presented to the real broker; grants(mutant) over 27-43 probe channels x 6 operations (+ use as master key) must be a subset of grants(original) (union of donors for cross-key swaps).",
+            "edits combining three or more changes are outside the bound; cryptographic strength itself is not a model-checking question. The structural malleability of the 32-character key format is recorded as a known finding.",
+            "DESIGN.md §4 C12"),
+    "C20": ("exploration", "E3",
+            "bounded-exhaustive enumeration of licenses, 24-byte keys, candidate key strings and license strings through the real license/cipher code",
+            "License round trips for versions 1-3 over fixed and generated licenses; every value of every key byte, every salt, byte pairs at boundary values: encrypt -> 32 URL-safe characters -> decrypt = key and injective; every candidate string length 0-40 and every byte value at every position: rejected iff malformed; every truncation/substitution/suffix of valid licenses: Parse yields a license or an error, never a panic (journalled sub-process).",
+            "the 2^192 key space is covered only through the structured family above.",
+            "DESIGN.md §4 C20"),
+})
+
+CHECKS.update({
+    "C17": ("model_checking", "E3+E1",
+            "exhaustive enumeration of stream compositions (every chunking, EOF placement, matcher set, consumer buffer; every write/limiter/flush script; every websocket message/fragment composition) replayed against the real adapters + preemption-bounded exhaustive schedule exploration of the concurrent write path",
+            "(a) every stream of length <= 10/12 with every composition into socket reads through the real Listener.Serve sniffing loop; (b) every sequence of <= 4 writes x every rate-limiter answer x every flush placement on the real listener.Conn; (c) two writers and the timer flush on the real listener.Conn under the controlled scheduler up to 2/3 deviations with a byte-level interleaving oracle; (d) every composition of <= 8 bytes into websocket messages with empty messages and control frames inserted, every fragmentation, 11 consumers incl. bufio.ReadByte, plus real gorilla framing (thorough).",
+            "fake sockets hand out scripted chunks; socket writes atomic; real sockets/TLS not modelled.",
+            "DESIGN.md §4 C17"),
+})
+
 NOT_YET = {}
 
 
